@@ -265,7 +265,7 @@ func runConnScript(c *Ctx, limit int64, script []connStep, tag string) (decision
 }
 
 func c04Controlled(c *Ctx) {
-	c.Cases("script", c.N(600, 25000), func(i int, r *rand.Rand) {
+	c.Cases("script", c.N(3000, 100000), func(i int, r *rand.Rand) {
 		limit := int64(r.IntN(6))
 		nsrc := 1 + r.IntN(4)
 		script := genConnScript(r, nsrc, 20+r.IntN(80))
@@ -310,7 +310,7 @@ type connIn struct {
 }
 
 func c04Free(c *Ctx) {
-	c.Cases("free", c.N(80, 2500), func(i int, r *rand.Rand) {
+	c.Cases("free", c.N(300, 8000), func(i int, r *rand.Rand) {
 		limit := int64(1 + r.IntN(4))
 		nsrc := 1 + r.IntN(2)
 		G := 16
